@@ -32,8 +32,19 @@ def spell(by, k):
     return [tuple(by), (list(by),)][k % 2]
 
 
-def obs_listby(t, by, k):
+def obs_listby(t, by, k, again=None):
+    """again = a column of new key cells: the table is regrouped once, its first key column is re-assigned in place
+    (same length) and the regrouping that is recorded is the one after that (judged against the edited table)"""
     ids = IdMap(); d = table_from(t, ids)
+    if again is not None and t['rows']:
+        try:
+            d.listby(*spell(by, k)); d.groupby(*spell(by, k)) if len(by) < len(t['cols']) else None
+        except Exception:
+            pass
+        col = by[0]
+        if k % 2: d[col] = [untag(v, ids) for v in again]
+        else: setattr(d, col, [untag(v, ids) for v in again])
+        t = {'cols': t['cols'], 'rows': [dict(r, **{col: v}) for r, v in zip(t['rows'], again)]}
     o = {'op': 'listby', 't': t, 'by': by, 'raised': '', 'out': {'cols': [], 'rows': []}, 'unl': {'cols': [], 'rows': []}, 'colcmp': [], 'after': {}}
     try:
         res = d.listby(*spell(by, k))
@@ -49,11 +60,19 @@ def obs_listby(t, by, k):
 
 def obs_groupby(t, by, k):
     ids = IdMap(); d = table_from(t, ids)
-    o = {'op': 'groupby', 't': t, 'by': by, 'raised': '', 'out': {'cols': [], 'rows': []}, 'ung': {'cols': [], 'rows': []}, 'after': {}}
+    o = {'op': 'groupby', 't': t, 'by': by, 'raised': '', 'out': {'cols': [], 'rows': []}, 'ung': {'cols': [], 'rows': []}, 'ung2': True, 'after': {}}
     try:
-        res = d.groupby(*spell(by, k))
-        o['out'] = proj(res, ids)
-        o['ung'] = proj(res.ungroup(), ids)
+        name = ['grp', 'rows', 'sub'][k % 3]
+        if name in t['cols']:
+            name = 'grp'
+        res = d.groupby(*spell(by, k)) if name == 'grp' else d.groupby(*spell(by, k), grp=name)
+        out = proj(res, ids)
+        if name != 'grp':          # the group column must carry the name that was asked for
+            out = {'cols': ['grp' if c == name else ('?' + c if c == 'grp' else c) for c in out['cols']],
+                   'rows': [{('grp' if c == name else ('?' + c if c == 'grp' else c)): v for c, v in r.items()} for r in out['rows']]}
+        o['out'] = out
+        o['ung'] = proj(res.ungroup() if name == 'grp' else res.ungroup(name), ids)
+        o['ung2'] = proj(res.ungroup() if name == 'grp' else res.ungroup(grp=name), ids) == o['ung']     # a second ungroup of the same grouped table
     except Exception as e:
         o['raised'] = type(e).__name__
     o['after'] = proj_table(d, ids)
@@ -104,6 +123,9 @@ def run(ctx):
             t, by = c['t'], c['by']
             obs.append(obs_listby(t, by, k))
             obs.append(obs_groupby(t, by, k))
+            if k % 3 == 0 and t['rows']:
+                vals = [r[by[0]] for r in t['rows']]
+                obs.append(obs_listby(t, by, k, again=[vals[0]] * len(vals) if k % 2 else list(reversed(vals))))
             if k % 2 == 0:
                 sub = [r['a'] for r in t['rows']] + [["n", 0]]
                 pt = pivot_table(rng, t['rows'], sub)
@@ -121,6 +143,8 @@ def run(ctx):
         by = rng.choice([['a'], ['b'], ['a', 'b'], ['b', 'a'], ['c', 'a'], ['a', 'b', 'c']])
         obs.append(obs_listby(t, by, i))
         obs.append(obs_groupby(t, by, i))
+        if n:
+            obs.append(obs_listby(t, by, i, again=[rng.choice(sub) for _ in range(n)]))
         pt = pivot_table(rng, keyrows, sub)
         obs.append(obs_pivot(pt, rng.choice([['a'], ['b'], ['a', 'b']]), 'y', 'z', rng.choice(['last', 'list', 'len', 'first', 'last']), i))
         ctx.note(('rand', i))
